@@ -264,6 +264,9 @@ class ATP_Store:
                     self._update_state()
                     return True
 
+                # Top-up was not enough: the deficit is measured from the topped-up balance
+                balance = self.atp
+
             # Try to use debt
             if allow_debt and self._debt < self.max_debt:
                 deficit = cost - balance
